@@ -169,7 +169,7 @@ func cmdUHist(o *Out, line string, f []string) {
 	meta := ""
 	// metadata documents of the pool (indices 6 and up), as hex and as decoded values for the JSON flavour
 	var metaVals []interface{}
-	for _, mraw := range pool[6:] {
+	for _, mraw := range pool[6:8] {
 		var d bson.D
 		_ = bson.Unmarshal(mraw, &d)
 		metaVals = append(metaVals, normJSONValue(d))
@@ -180,7 +180,7 @@ func cmdUHist(o *Out, line string, f []string) {
 		if flavour == "bson" {
 			docs, _ := splitBSON(out)
 			for _, d := range docs {
-				for _, mraw := range pool[6:] {
+				for _, mraw := range pool[6:8] {
 					if d == hx(mraw) {
 						found = append(found, d)
 					}
@@ -287,7 +287,7 @@ func cmdUHist(o *Out, line string, f []string) {
 		var samples []string
 		for _, d := range docs {
 			isMeta := false
-			for _, mraw := range pool[6:] {
+			for _, mraw := range pool[6:8] {
 				isMeta = isMeta || d == hx(mraw)
 			}
 			if isMeta {
@@ -363,8 +363,11 @@ func streamUncompressed(o *Out, rng *rand.Rand, thorough bool, _ []string) {
 		hx(docBytes([]*Node{{Key: "s", Tag: 0x02, Raw: append(u32(2), 'x', 0)}, i64n("v", 7)})),
 		hx(docBytes([]*Node{i64n("host", 99), {Key: "name", Tag: 0x02, Raw: append(u32(3), 'h', '1', 0)}, i64n("x", 1)})), // metadata
 		hx(docBytes([]*Node{i64n("host", 77), {Key: "name", Tag: 0x02, Raw: append(u32(3), 'h', '2', 0)}, i64n("x", 2)})), // another metadata
+		// the same metric keys as document 5 (so the schema-aware wrapper sees no change) but another number of
+		// top-level fields (so the wrapped uncompressed collector refuses it)
+		hx(docBytes([]*Node{i64n("v", 8)})),
 	}
-	alphabet := []string{"a0", "a1", "a2", "a3", "a4", "x", "r", "z", "f", "m6", "m7", "i"}
+	alphabet := []string{"a0", "a1", "a2", "a3", "a4", "a5", "a8", "x", "r", "z", "f", "m6", "m7", "i"}
 	maxLen := 3
 	if thorough {
 		maxLen = 4
